@@ -503,6 +503,7 @@ func check(c cfg, o *obs, meta *hx.Meta) {
 		meta.Violate(hx.Violation{Property: "C18", What: what, Signature: "two-senders", Replay: rep()})
 		meta.Violate(hx.Violation{Property: "C01", What: what, Signature: "two-senders", Replay: rep()})
 		meta.Violate(hx.Violation{Property: "C02", What: what, Signature: "two-senders", Replay: rep()})
+		meta.Violate(hx.Violation{Property: "C12", What: what + " (unsynchronised use of the shared batch slices)", Signature: "two-senders", Replay: rep()})
 	}
 	if c.QCap > 0 && o.MaxUnsent > c.QCap+c.QCap/2+1 {
 		meta.Violate(hx.Violation{Property: "C18", What: fmt.Sprintf("%d payloads accepted and not yet sent: more than the queue size %d plus one batch (%d)", o.MaxUnsent, c.QCap, c.QCap/2+1), Signature: "bound", Replay: rep()})
